@@ -12,7 +12,13 @@ EXPL = "exploration"
 def harness_json(run, args, **kw):
     out = vlib.run_harness(run, args, **kw)
     line = [l for l in out.splitlines() if l.startswith("{")][-1]
-    return json.loads(line)
+    s = json.loads(line)
+    for i, pn in enumerate(s.get("panics") or []):
+        # the library panicked on an input the harness generated (each goroutine of the harness works on its own objects):
+        # whatever the property, the result it speaks of was not delivered
+        path = vlib.save_replay(run, "panic_%d" % i, {"property": run.pid, "kind": "library-panic", "harness_args": args, "seed": run.seed, "panic": pn})
+        run.violations.append({"what": "the library panicked while the harness was recording (%s): %s" % (" ".join(args[:1]), pn.split("\\n")[0][:200]), "replay": path})
+    return s
 
 
 def judge(run, verdicts, describe=None, known=None):
